@@ -107,6 +107,10 @@ def types_unit(tier):
                        ("virtual_ptr<std::shared_ptr<A>, P>", "const virtual_ptr<std::shared_ptr<B>, P>&", "shared-val-ref")):
         u.add("spec-classes|%s" % nm, "a definition taking %s for a method parameter %s registers the class B for it" % (dk, mk),
               "static_assert(std::is_same_v<detail::spec_polymorphic_types<P, detail::types<%s, int>, detail::types<%s, int>>, detail::types<B>>);" % (mk, dk))
+    # non-virtual parameters are none of the policy's business: a signature may pass an INCOMPLETE type by reference or pointer
+    # (nothing on the call or error path may ask the policy for its type id)
+    u.add("must-compile|opaque-nonvirtual", "a method whose non-virtual parameters are references / pointers to an incomplete type compiles, error handlers included",
+          "namespace opq { struct Opaque; struct K; using M = method<K, int(Opaque&, virtual_<A&>, Opaque*)>; int d(Opaque&, B&, Opaque*); M::add_function<d> r; int call(Opaque& o, A& a) { return M::fn(o, a, &o); } }", separate=True)
     # programs that must compile: one line each
     progs = [
         ("moveonly-last", "int(virtual_<A&>, std::unique_ptr<int>)", "B&, std::unique_ptr<int>", "A& a, std::unique_ptr<int> p", "a, std::move(p)"),
